@@ -315,6 +315,31 @@ func genStreamSpec(prop string, seed uint64, o streamGenOpts) *spec.RunSpec {
 			}
 		}
 	}
+	if sr := simnet.NewRng(seed, "gen-slowreader-"+prop); o.closeMode == "barrier" && sr.Bool(0.12) {
+		// Slow consumer: one direction of one session is written as thousands of small
+		// segments (more than a session's receive queue of 4096 holds) while the reading
+		// application does not read for several seconds; afterwards everything must arrive.
+		c := &s.Clients[sr.Intn(len(s.Clients))]
+		se := &c.Sessions[sr.Intn(len(c.Sessions))]
+		// a side's script holds what it writes and how it reads: the reader of what wr
+		// writes is the other side, rd
+		wr, rd := &se.C2S, &se.S2C
+		if sr.Bool(0.5) {
+			wr, rd = &se.S2C, &se.C2S
+		}
+		n := sr.Pick(4200, 4600, 5200)
+		wr.Writes = nil
+		for i := 0; i < n; i++ {
+			wr.Writes = append(wr.Writes, sr.Pick(1, 1, 2, 7, 16))
+		}
+		wr.GapsUs = []int64{1}
+		rd.ReadDelayUs = int64(sr.Pick(2500000, 5000000, 9000000))
+		rd.ReadBufs = []int{65536}
+		s.Profile += "+slow-reader"
+		if s.Liveness != nil {
+			s.Liveness.BoundUs += 60000000
+		}
+	}
 	switch prop {
 	case "C01", "C02", "C03", "C13", "C14", "C16":
 		// a third of the runs take their connections straight from the multiplexers, where
